@@ -644,6 +644,224 @@ static void wlCert(Ctx& c, int nexec, int len, int maxDim, int spread, int infun
    }
 }
 
+// ---------------------------------------------------------------- rational / GMP interface (C07)
+struct QV { Rational v; std::string s; };
+static QV qv(const Rational& r) { QV q; q.v = r; q.s = qrat(r); return q; }
+struct GenQ
+{
+   Rng& g;
+   QV fin()
+   {
+      switch(g.R(0, 9))
+      {
+      case 0: return qv(Rational(1) / Rational(3));
+      case 1: return qv(Rational(-2) / Rational(7));
+      case 2: { Rational t(10); Rational r(1); for(int i = 0; i < 30; i++) r *= t; return qv(Rational(1) / r); }       // 1e-30
+      case 3: { Rational t(10); Rational r(1); for(int i = 0; i < 30; i++) r *= t; return qv(r / Rational(3)); }       // ~3.3e29, not a double
+      case 4: { Rational r(1); Rational t(2); for(int i = 0; i < 1080; i++) r /= t; return qv(Rational(5) * r); }      // denormal scale
+      case 5: return qv(Rational(g.R(-3, 3)) + Rational(1) / Rational(1024));
+      default: return qv(Rational(g.R(-3, 3)));
+      }
+   }
+   QV coef() { QV q; do q = fin(); while(q.v == 0); return q; }
+   QV cost() { return fin(); }
+   QV lower() { return g.coin(1, 4) ? qv(Rational(-infinity)) : fin(); }
+   QV upperFrom(const QV& lo)
+   {
+      if(g.coin(1, 4)) return qv(Rational(infinity));
+      if(lo.v <= Rational(-infinity)) return fin();
+      return qv(lo.v + Rational(g.R(0, 4)) + (g.coin(1, 3) ? Rational(1) / Rational(3) : Rational(0)));
+   }
+};
+static DSVectorRational randVecQ(Ctx& c, GenQ& gen, int dim, int extra, std::string& js)
+{
+   DSVectorRational v; std::vector<std::pair<int, std::string>> e;
+   for(int j = 0; j < dim + extra; j++) { if(!c.rng.coin()) continue; QV x = gen.coef(); v.add(j, x.v); e.push_back({j, x.s}); }
+   js = jsp(e); return v;
+}
+static void modEventQ(Ctx& c, int o, const char* name, const char* via, const std::string& g, const std::string& permOut = "[]")
+{
+   c.modsSinceBasis[o]++;
+   J ev; ev.s("a", "mod").i("o", o).s("name", name).s("via", via).raw("g", g).raw("permOut", permOut);
+   emit(c, o, ev);
+}
+static std::string qvec(const VectorRational& v) { return jarr(v.dim(), [&](int i) { return jq(qrat(v[i])); }); }
+static void sidesQ(Ctx& c, GenQ& gen, QV& l, QV& r) { l = gen.lower(); r = gen.upperFrom(l); if(c.rng.coin(1, 6) && l.v > Rational(-infinity)) r = l; }
+struct MpqArr
+{
+   std::vector<mpq_t*> owned; 
+   mpq_t* make(const std::vector<Rational>& vals) { mpq_t* a = new mpq_t[vals.size() + 1]; for(size_t i = 0; i <= vals.size(); i++) mpq_init(a[i]); for(size_t i = 0; i < vals.size(); i++) mpq_set(a[i], vals[i].backend().data()); owned.push_back(a); sizes.push_back(vals.size() + 1); return a; }
+   std::vector<size_t> sizes;
+   ~MpqArr() { for(size_t k = 0; k < owned.size(); k++) { for(size_t i = 0; i < sizes[k]; i++) mpq_clear(owned[k][i]); delete[] owned[k]; } }
+};
+
+static bool randomModRat(Ctx& c, int o, GenQ& gen, int maxDim)
+{
+   SoPlex& s = *c.objs[o];
+   int nr = s.numRowsRational(), nc = s.numColsRational();
+   int a = c.rng.R(0, 34);
+   std::string vj;
+   pending() = "modRat case " + std::to_string(a);
+   switch(a)
+   {
+   case 0: { if(nr >= maxDim) return false; QV l, r; sidesQ(c, gen, l, r);
+      DSVectorRational v = randVecQ(c, gen, nc, (nc < maxDim && c.rng.coin(1, 5)) ? 1 : 0, vj);
+      s.addRowRational(LPRowRational(l.v, v, r.v));
+      J g; g.s("lhs", l.s).raw("vec", vj).s("rhs", r.s); modEventQ(c, o, "addRow", "rat", g.str()); return true; }
+   case 1: { if(nr + 2 > maxDim) return false; int k = c.rng.R(0, 2); LPRowSetRational set; std::ostringstream rows; rows << "[";
+      for(int t = 0; t < k; t++) { QV l, r; sidesQ(c, gen, l, r); DSVectorRational v = randVecQ(c, gen, nc, 0, vj); set.add(l.v, v, r.v);
+         J g; g.s("lhs", l.s).raw("vec", vj).s("rhs", r.s); rows << (t ? "," : "") << g.str(); }
+      rows << "]"; s.addRowsRational(set); modEventQ(c, o, "addRows", "rat", "{\"rows\":" + rows.str() + "}"); return true; }
+   case 2: { if(nc >= maxDim) return false; QV lo = gen.lower(), up = gen.upperFrom(lo), obj = gen.cost();
+      DSVectorRational v = randVecQ(c, gen, nr, (nr < maxDim && c.rng.coin(1, 5)) ? 1 : 0, vj);
+      s.addColRational(LPColRational(obj.v, v, up.v, lo.v));
+      J g; g.s("obj", obj.s).s("lo", lo.s).raw("vec", vj).s("up", up.s); modEventQ(c, o, "addCol", "rat", g.str()); return true; }
+   case 3: { if(nc + 2 > maxDim) return false; int k = c.rng.R(0, 2); LPColSetRational set; std::ostringstream cols; cols << "[";
+      for(int t = 0; t < k; t++) { QV lo = gen.lower(), up = gen.upperFrom(lo), obj = gen.cost(); DSVectorRational v = randVecQ(c, gen, nr, 0, vj); set.add(obj.v, lo.v, v, up.v);
+         J g; g.s("obj", obj.s).s("lo", lo.s).raw("vec", vj).s("up", up.s); cols << (t ? "," : "") << g.str(); }
+      cols << "]"; s.addColsRational(set); modEventQ(c, o, "addCols", "rat", "{\"cols\":" + cols.str() + "}"); return true; }
+   case 4: { if(nr == 0) return false; int i = c.rng.R(0, nr - 1); QV l, r; sidesQ(c, gen, l, r); DSVectorRational v = randVecQ(c, gen, nc, 0, vj);
+      s.changeRowRational(i, LPRowRational(l.v, v, r.v));
+      J g; g.i("i", i).s("lhs", l.s).raw("vec", vj).s("rhs", r.s); modEventQ(c, o, "changeRow", "rat", g.str()); return true; }
+   case 5: { if(nc == 0) return false; int j = c.rng.R(0, nc - 1); QV lo = gen.lower(), up = gen.upperFrom(lo), obj = gen.cost(); DSVectorRational v = randVecQ(c, gen, nr, 0, vj);
+      s.changeColRational(j, LPColRational(obj.v, v, up.v, lo.v));
+      J g; g.i("i", j).s("obj", obj.s).s("lo", lo.s).raw("vec", vj).s("up", up.s); modEventQ(c, o, "changeCol", "rat", g.str()); return true; }
+   case 6: { if(nr == 0) return false; int i = c.rng.R(0, nr - 1); QV v = gen.lower(); if(v.v > s.rhsRational(i)) v = qv(s.rhsRational(i));
+      bool gmp = c.rng.coin(); if(gmp) s.changeLhsRational(i, &v.v.backend().data()); else s.changeLhsRational(i, v.v);
+      J g; g.i("i", i).s("v", v.s); modEventQ(c, o, "changeLhs", gmp ? "gmp" : "rat", g.str()); return true; }
+   case 7: { if(nr == 0) return false; int i = c.rng.R(0, nr - 1); QV v = gen.upperFrom(qv(s.lhsRational(i))); if(v.v < s.lhsRational(i)) v = qv(s.lhsRational(i));
+      s.changeRhsRational(i, v.v); J g; g.i("i", i).s("v", v.s); modEventQ(c, o, "changeRhs", "rat", g.str()); return true; }
+   case 8: { if(nr == 0) return false; int i = c.rng.R(0, nr - 1); QV l, r; sidesQ(c, gen, l, r);
+      bool gmp = c.rng.coin(); if(gmp) s.changeRangeRational(i, &l.v.backend().data(), &r.v.backend().data()); else s.changeRangeRational(i, l.v, r.v);
+      J g; g.i("i", i).s("lhs", l.s).s("rhs", r.s); modEventQ(c, o, "changeRange", gmp ? "gmp" : "rat", g.str()); return true; }
+   case 9: { if(nc == 0) return false; int j = c.rng.R(0, nc - 1); QV v = gen.lower(); if(v.v > s.upperRational(j)) v = qv(s.upperRational(j));
+      bool gmp = c.rng.coin(); if(gmp) s.changeLowerRational(j, &v.v.backend().data()); else s.changeLowerRational(j, v.v);
+      J g; g.i("i", j).s("v", v.s); modEventQ(c, o, "changeLower", gmp ? "gmp" : "rat", g.str()); return true; }
+   case 10: { if(nc == 0) return false; int j = c.rng.R(0, nc - 1); QV v = gen.upperFrom(qv(s.lowerRational(j))); if(v.v < s.lowerRational(j)) v = qv(s.lowerRational(j));
+      bool gmp = c.rng.coin(); if(gmp) s.changeUpperRational(j, &v.v.backend().data()); else s.changeUpperRational(j, v.v);
+      J g; g.i("i", j).s("v", v.s); modEventQ(c, o, "changeUpper", gmp ? "gmp" : "rat", g.str()); return true; }
+   case 11: { if(nc == 0) return false; int j = c.rng.R(0, nc - 1); QV lo = gen.lower(), up = gen.upperFrom(lo);
+      bool gmp = c.rng.coin(); if(gmp) s.changeBoundsRational(j, &lo.v.backend().data(), &up.v.backend().data()); else s.changeBoundsRational(j, lo.v, up.v);
+      J g; g.i("i", j).s("lo", lo.s).s("up", up.s); modEventQ(c, o, "changeBounds", gmp ? "gmp" : "rat", g.str()); return true; }
+   case 12: { if(nc == 0) return false; int j = c.rng.R(0, nc - 1); QV v = gen.cost();
+      bool gmp = c.rng.coin(); if(gmp) s.changeObjRational(j, &v.v.backend().data()); else s.changeObjRational(j, v.v);
+      J g; g.i("i", j).s("v", v.s); modEventQ(c, o, "changeObj", gmp ? "gmp" : "rat", g.str()); return true; }
+   case 13: { if(nr == 0) return false; VectorRational v(nr); for(int i = 0; i < nr; i++) { QV t = gen.lower(); if(t.v > s.rhsRational(i)) t = qv(s.rhsRational(i)); v[i] = t.v; }
+      s.changeLhsRational(v); modEventQ(c, o, "changeLhsV", "rat", "{\"v\":" + qvec(v) + "}"); return true; }
+   case 14: { if(nr == 0) return false; VectorRational v(nr); for(int i = 0; i < nr; i++) { QV t = gen.upperFrom(qv(s.lhsRational(i))); if(t.v < s.lhsRational(i)) t = qv(s.lhsRational(i)); v[i] = t.v; }
+      bool gmp = c.rng.coin();
+      if(gmp) { std::vector<Rational> vals(nr); for(int i = 0; i < nr; i++) vals[i] = v[i]; MpqArr arr; mpq_t* p = arr.make(vals); s.changeRhsRational(p, nr); }
+      else s.changeRhsRational(v);
+      modEventQ(c, o, "changeRhsV", gmp ? "gmp" : "rat", "{\"v\":" + qvec(v) + "}"); return true; }
+   case 15: { if(nr == 0) return false; VectorRational l(nr), r(nr); for(int i = 0; i < nr; i++) { QV a1, b1; sidesQ(c, gen, a1, b1); l[i] = a1.v; r[i] = b1.v; }
+      s.changeRangeRational(l, r); modEventQ(c, o, "changeRangeV", "rat", "{\"lhs\":" + qvec(l) + ",\"rhs\":" + qvec(r) + "}"); return true; }
+   case 16: { if(nc == 0) return false; VectorRational v(nc); for(int j = 0; j < nc; j++) { QV t = gen.lower(); if(t.v > s.upperRational(j)) t = qv(s.upperRational(j)); v[j] = t.v; }
+      s.changeLowerRational(v); modEventQ(c, o, "changeLowerV", "rat", "{\"v\":" + qvec(v) + "}"); return true; }
+   case 17: { if(nc == 0) return false; VectorRational v(nc); for(int j = 0; j < nc; j++) { QV t = gen.upperFrom(qv(s.lowerRational(j))); if(t.v < s.lowerRational(j)) t = qv(s.lowerRational(j)); v[j] = t.v; }
+      s.changeUpperRational(v); modEventQ(c, o, "changeUpperV", "rat", "{\"v\":" + qvec(v) + "}"); return true; }
+   case 18: { if(nc == 0) return false; VectorRational l(nc), u(nc); for(int j = 0; j < nc; j++) { QV a1 = gen.lower(), b1 = gen.upperFrom(a1); l[j] = a1.v; u[j] = b1.v; }
+      s.changeBoundsRational(l, u); modEventQ(c, o, "changeBoundsV", "rat", "{\"lo\":" + qvec(l) + ",\"up\":" + qvec(u) + "}"); return true; }
+   case 19: { if(nc == 0) return false; VectorRational v(nc); for(int j = 0; j < nc; j++) v[j] = gen.cost().v;
+      s.changeObjRational(v); modEventQ(c, o, "changeObjV", "rat", "{\"v\":" + qvec(v) + "}"); return true; }
+   case 20: { if(nr == 0 || nc == 0) return false; int i = c.rng.R(0, nr - 1), j = c.rng.R(0, nc - 1); QV v = c.rng.coin(1, 4) ? qv(Rational(0)) : gen.coef();
+      bool gmp = c.rng.coin(); if(gmp) s.changeElementRational(i, j, &v.v.backend().data()); else s.changeElementRational(i, j, v.v);
+      J g; g.i("i", i).i("j", j).s("v", v.s); modEventQ(c, o, "changeElement", gmp ? "gmp" : "rat", g.str()); return true; }
+   case 21: { if(nr == 0) return false; int i = c.rng.R(0, nr - 1); s.removeRowRational(i); J g; g.i("i", i); modEventQ(c, o, "removeRow", "rat", g.str()); return true; }
+   case 22: { if(nc <= 1) return false; int j = c.rng.R(0, nc - 1); s.removeColRational(j); J g; g.i("i", j); modEventQ(c, o, "removeCol", "rat", g.str()); return true; }
+   case 23: { if(nr < 2) return false; std::vector<int> perm(nr); for(int i = 0; i < nr; i++) perm[i] = c.rng.coin(1, 3) ? -1 : c.rng.R(0, 5);
+      std::string in = jints(perm); s.removeRowsRational(perm.data()); modEventQ(c, o, "removeRowsPerm", "rat", "{\"perm\":" + in + "}", jints(perm)); return true; }
+   case 24: { if(nr < 2) return false; int n = c.rng.R(0, 2); std::vector<int> idx; for(int k = 0; k < n; k++) idx.push_back(c.rng.R(0, nr - 1));
+      std::vector<int> perm(nr, 7); bool wp = c.rng.coin(); std::string in = jints(idx); idx.push_back(0);
+      s.removeRowsRational(idx.data(), n, wp ? perm.data() : nullptr); modEventQ(c, o, "removeRowsIdx", "rat", "{\"idx\":" + in + "}", wp ? jints(perm) : "[]"); return true; }
+   case 25: { if(nr < 2) return false; int st = c.rng.R(0, nr - 1), en = c.rng.R(st, std::min(nr - 1, st + 1)); std::vector<int> perm(nr, 7); bool wp = c.rng.coin();
+      s.removeRowRangeRational(st, en, wp ? perm.data() : nullptr); J g; g.i("start", st).i("end", en); modEventQ(c, o, "removeRowRange", "rat", g.str(), wp ? jints(perm) : "[]"); return true; }
+   case 26: { if(nc < 3) return false; std::vector<int> perm(nc); for(int i = 0; i < nc; i++) perm[i] = c.rng.coin(1, 4) ? -1 : c.rng.R(0, 5);
+      std::string in = jints(perm); s.removeColsRational(perm.data()); modEventQ(c, o, "removeColsPerm", "rat", "{\"perm\":" + in + "}", jints(perm)); return true; }
+   case 27: { if(nc < 3) return false; int n = c.rng.R(0, 2); std::vector<int> idx; for(int k = 0; k < n; k++) idx.push_back(c.rng.R(0, nc - 1));
+      std::vector<int> perm(nc, 7); bool wp = c.rng.coin(); std::string in = jints(idx); idx.push_back(0);
+      s.removeColsRational(idx.data(), n, wp ? perm.data() : nullptr); modEventQ(c, o, "removeColsIdx", "rat", "{\"idx\":" + in + "}", wp ? jints(perm) : "[]"); return true; }
+   case 28: { if(nc < 3) return false; int st = c.rng.R(0, nc - 1), en = c.rng.R(st, std::min(nc - 1, st + 1)); std::vector<int> perm(nc, 7); bool wp = c.rng.coin();
+      s.removeColRangeRational(st, en, wp ? perm.data() : nullptr); J g; g.i("start", st).i("end", en); modEventQ(c, o, "removeColRange", "rat", g.str(), wp ? jints(perm) : "[]"); return true; }
+   case 29: { if(!c.rng.coin(1, 8)) return false; s.clearLPRational(); modEventQ(c, o, "clearLP", "rat", "{}"); return true; }
+   case 30: { // addRowRational(mpq)
+      if(nr >= maxDim) return false; QV l, r; sidesQ(c, gen, l, r);
+      std::vector<Rational> vals; std::vector<int> idx; std::vector<std::pair<int, std::string>> e;
+      for(int j = 0; j < nc; j++) if(c.rng.coin()) { QV x = gen.coef(); vals.push_back(x.v); idx.push_back(j); e.push_back({j, x.s}); }
+      MpqArr arr; mpq_t* pv = arr.make(vals); mpq_t* pl = arr.make({l.v}); mpq_t* pr = arr.make({r.v}); idx.push_back(0);
+      s.addRowRational(pl, pv, idx.data(), (int)vals.size(), pr);
+      J g; g.s("lhs", l.s).raw("vec", jsp(e)).s("rhs", r.s); modEventQ(c, o, "addRow", "gmp", g.str()); return true; }
+   case 31: { // addColRational(mpq)
+      if(nc >= maxDim) return false; QV lo = gen.lower(), up = gen.upperFrom(lo), obj = gen.cost();
+      std::vector<Rational> vals; std::vector<int> idx; std::vector<std::pair<int, std::string>> e;
+      for(int i = 0; i < nr; i++) if(c.rng.coin()) { QV x = gen.coef(); vals.push_back(x.v); idx.push_back(i); e.push_back({i, x.s}); }
+      MpqArr arr; mpq_t* pv = arr.make(vals); mpq_t* po = arr.make({obj.v}); mpq_t* pl = arr.make({lo.v}); mpq_t* pu = arr.make({up.v}); idx.push_back(0);
+      s.addColRational(po, pl, pv, idx.data(), (int)vals.size(), pu);
+      J g; g.s("obj", obj.s).s("lo", lo.s).raw("vec", jsp(e)).s("up", up.s); modEventQ(c, o, "addCol", "gmp", g.str()); return true; }
+   case 32: { // addRowsRational(mpq arrays)
+      if(nr + 2 > maxDim) return false; int k = c.rng.R(1, 2);
+      std::vector<Rational> vals, ls, rs; std::vector<int> idx, starts, lens; std::ostringstream rows; rows << "[";
+      for(int t = 0; t < k; t++) { QV l, r; sidesQ(c, gen, l, r); ls.push_back(l.v); rs.push_back(r.v); starts.push_back((int)vals.size()); std::vector<std::pair<int, std::string>> e;
+         for(int j = 0; j < nc; j++) if(c.rng.coin()) { QV x = gen.coef(); vals.push_back(x.v); idx.push_back(j); e.push_back({j, x.s}); }
+         lens.push_back((int)vals.size() - starts.back()); J g; g.s("lhs", l.s).raw("vec", jsp(e)).s("rhs", r.s); rows << (t ? "," : "") << g.str(); }
+      rows << "]"; MpqArr arr; mpq_t* pv = arr.make(vals); mpq_t* pl = arr.make(ls); mpq_t* pr = arr.make(rs); idx.push_back(0);
+      s.addRowsRational(pl, pv, idx.data(), starts.data(), lens.data(), k, (int)vals.size(), pr);
+      modEventQ(c, o, "addRows", "gmp", "{\"rows\":" + rows.str() + "}"); return true; }
+   case 33: { // addColsRational(mpq arrays)
+      if(nc + 2 > maxDim) return false; int k = c.rng.R(1, 2);
+      std::vector<Rational> vals, os, ls, us; std::vector<int> idx, starts, lens; std::ostringstream cols; cols << "[";
+      for(int t = 0; t < k; t++) { QV lo = gen.lower(), up = gen.upperFrom(lo), obj = gen.cost(); os.push_back(obj.v); ls.push_back(lo.v); us.push_back(up.v); starts.push_back((int)vals.size()); std::vector<std::pair<int, std::string>> e;
+         for(int i = 0; i < nr; i++) if(c.rng.coin()) { QV x = gen.coef(); vals.push_back(x.v); idx.push_back(i); e.push_back({i, x.s}); }
+         lens.push_back((int)vals.size() - starts.back()); J g; g.s("obj", obj.s).s("lo", lo.s).raw("vec", jsp(e)).s("up", up.s); cols << (t ? "," : "") << g.str(); }
+      cols << "]"; MpqArr arr; mpq_t* pv = arr.make(vals); mpq_t* po = arr.make(os); mpq_t* pl = arr.make(ls); mpq_t* pu = arr.make(us); idx.push_back(0);
+      s.addColsRational(po, pl, pv, idx.data(), starts.data(), lens.data(), k, (int)vals.size(), pu);
+      modEventQ(c, o, "addCols", "gmp", "{\"cols\":" + cols.str() + "}"); return true; }
+   case 34: { if(nr == 0) return false; int i = c.rng.R(0, nr - 1); QV v = gen.upperFrom(qv(s.lhsRational(i))); if(v.v < s.lhsRational(i)) v = qv(s.lhsRational(i));
+      s.changeRhsRational(i, v.v); J g; g.i("i", i).s("v", v.s); modEventQ(c, o, "changeRhs", "rat", g.str()); return true; }
+   }
+   return false;
+}
+static void syncCall(Ctx& c, int o, bool real)
+{
+   if(real) c.objs[o]->syncLPReal(); else c.objs[o]->syncLPRational();
+   if(real) c.modsSinceBasis[o]++;
+   J ev; ev.s("a", "sync").i("o", o).s("which", real ? "real" : "rational"); emit(c, o, ev);
+}
+// C07: interleavings of real-interface and rational-interface modifications under the three sync modes
+static void wlSync(Ctx& c, int nexec, int len)
+{
+   for(int e = 0; e < nexec; e++)
+   {
+      T().line("{\"a\":\"Reset\"}");
+      c.objs.clear(); c.nextId = 0;
+      Gen gen{c.rng, c.rng.coin(1, 3) ? 2 : 0}; GenQ genq{c.rng};
+      int o = createObj(c);
+      setInt(c, o, "OBJSENSE", SoPlex::OBJSENSE, c.rng.coin() ? -1 : 1);
+      int maxDim = c.rng.R(2, 5);
+      // some real-only prefix, then switch the mode
+      int pre = c.rng.R(0, 6);
+      for(int k = 0; k < pre; k++) { int tries = 0; while(!randomModReal(c, o, gen, maxDim) && ++tries < 50) {} }
+      setInt(c, o, "SYNCMODE", SoPlex::SYNCMODE, c.rng.coin(2, 3) ? SoPlex::SYNCMODE_AUTO : SoPlex::SYNCMODE_MANUAL);
+      for(int step = 0; step < len; step++)
+      {
+         int mode = c.objs[o]->intParam(SoPlex::SYNCMODE);
+         int k = c.rng.R(0, 99);
+         if(k < 40) { int tries = 0; while(!randomModReal(c, o, gen, maxDim) && ++tries < 50) {} }
+         else if(k < 85) { if(mode == SoPlex::SYNCMODE_ONLYREAL) continue; int tries = 0; while(!randomModRat(c, o, genq, maxDim) && ++tries < 50) {} }
+         else if(k < 91) syncCall(c, o, c.rng.coin());
+         else if(k < 94) setInt(c, o, "OBJSENSE", SoPlex::OBJSENSE, c.rng.coin() ? -1 : 1);
+         else if(k < 96) setReal(c, o, "OBJ_OFFSET", SoPlex::OBJ_OFFSET, (double)c.rng.R(-3, 3));
+         else
+         {
+            // switch the sync mode mid-history (MANUAL -> AUTO only right after an explicit sync: the code does not
+            // synchronise on that switch, see DESIGN.md section 6 no. 10)
+            int to = c.rng.R(0, 2);
+            if(mode == SoPlex::SYNCMODE_MANUAL && to == SoPlex::SYNCMODE_AUTO) syncCall(c, o, false);
+            setInt(c, o, "SYNCMODE", SoPlex::SYNCMODE, to);
+         }
+      }
+   }
+}
+
 // C04: every point of a history at which hasBasis() is true; set/read back; transplant into a new object
 static void wlBasis(Ctx& c, int nexec, int len)
 {
@@ -689,6 +907,7 @@ int main(int argc, char** argv)
    else if(wl == "cert2") wlCert(c, nexec, len, 5, 0, 1);
    else if(wl == "certbig2") wlCert(c, nexec, len, 14, 0, 1);
    else if(wl == "basis") wlBasis(c, nexec, len);
+   else if(wl == "sync") wlSync(c, nexec, len);
    else if(wl == "certbig") wlCert(c, nexec, len, 14, 0);
    else if(wl == "certscaled") wlCert(c, nexec, len, 6, 12);
    else { fprintf(stderr, "unknown workload %s\n", wl.c_str()); return 2; }
